@@ -830,6 +830,11 @@ func (ts tasks) responses(rpcLog RPCLogger) jmessages {
 		if task.err == nil {
 			rsp.R = task.val
 		} else if e, ok := task.err.(*Error); ok {
+			if len(e.Data) != 0 && !json.Valid(e.Data) {
+				// Data that cannot be encoded would make the whole batch of
+				// replies unsendable; report the error without it.
+				e = &Error{Code: e.Code, Message: e.Message}
+			}
 			rsp.E = e
 		} else if c := ErrorCode(task.err); c != NoError {
 			rsp.E = &Error{Code: c, Message: task.err.Error()}
